@@ -130,7 +130,7 @@ pub fn gen_c14(tier: &str, seed: u64, out: &str, mc: Option<&str>, release_exe: 
         None => vec![("checked", me.clone())],
     };
     let plan: Vec<Value> = mc.and_then(|p| std::fs::read_to_string(p).ok()).map(|txt| txt.lines().filter_map(|l| serde_json::from_str(l).ok()).collect()).unwrap_or_default();
-    let fills = if tier == "thorough" { 6 } else { 2 };
+    let fills = if tier == "thorough" { 6 } else { 4 };
     let mut counts = std::collections::BTreeMap::<String, u64>::new();
     let mut jobs: Vec<(Value, Option<Value>)> = vec![];
     for (i, p) in plan.iter().enumerate() {
@@ -146,7 +146,24 @@ pub fn gen_c14(tier: &str, seed: u64, out: &str, mc: Option<&str>, release_exe: 
             // alias comparisons only for the unmodified representative (its canonical twin is known exactly)
             let (id, canon) = if status == "alias" { (id0, canon) } else { (id, None) };
             let (lon, lat) = coord_of(p["coord"].as_str().unwrap_or("generic"), v);
-            let ids = if f == "uncompact" || f == "compact" {
+            let ids = if f == "uncompact" && p["demand"] == "err" && v >= 2 {
+                // the honest answer is Err, whatever stands in front: a coarse valid cell must not make the call
+                // reserve or expand anything before the offending element has been looked at
+                let front = match v % 3 { 0 => 0u64, 1 => a5::lonlat_to_cell(LonLat::new(7.0, 50.0), 0).unwrap(), _ => a5::lonlat_to_cell(LonLat::new(7.0, 50.0), 9).unwrap() };
+                vec![front, id]
+            } else if f == "compact" && v >= 2 {
+                // runs of consecutive top-six-bit values carrying the marker of the cell under test (sibling arithmetic
+                // on malformed IDs must not overflow)
+                let r0 = a5::get_resolution(id);
+                let stride = if r0 < 2 { 1u64 << 58 } else { 1u64 << (2 * (30 - r0)) };
+                let mut l: Vec<u64> = (0..(if v % 2 == 0 { 12u64 } else { 4 })).map(|j| id.wrapping_add(j.wrapping_mul(stride))).collect();
+                if v % 2 == 1 {
+                    // ... followed by enough ordinary finer cells for the sibling scan to run over the whole run
+                    let finer = (r0 + 1).clamp(0, 29);
+                    for k in 0..8 { l.push(a5::lonlat_to_cell(LonLat::new(20.0 * k as f64, 10.0), finer).unwrap()); }
+                }
+                l
+            } else if f == "uncompact" || f == "compact" {
                 // the cell under test inside a small list of ordinary cells
                 // an ordinary companion cell whose own expansion is trivial (fan-out <= 4)
                 let rr = p["r"].as_i64().unwrap_or(3);
